@@ -139,14 +139,14 @@ const (
 )
 
 const (
-	spPlain   = 0 // spec has ordinary properties only
-	spKey0    = 1 // spKey0+i: ordinary properties + one named like specCollisionKeys[i]
+	spPlain = 0 // spec has ordinary properties only
+	spKey0  = 1 // spKey0+i: ordinary properties + one named like specCollisionKeys[i]
 	// after the keys: spAll, spNoProps, spNoSpec (see specPropsCount)
 )
 
-func spAll() int        { return spKey0 + len(specCollisionKeys) }
-func spNoProps() int    { return spAll() + 1 }
-func spNoSpec() int     { return spAll() + 2 }
+func spAll() int          { return spKey0 + len(specCollisionKeys) }
+func spNoProps() int      { return spAll() + 1 }
+func spNoSpec() int       { return spAll() + 2 }
 func specPropsCount() int { return spAll() + 3 }
 
 const (
@@ -155,7 +155,7 @@ const (
 	stKey0  = 2 // stKey0+j: ordinary + one named like statusCollisionKeys[j]
 )
 
-func stAll() int          { return stKey0 + len(statusCollisionKeys) }
+func stAll() int            { return stKey0 + len(statusCollisionKeys) }
 func statusPropsCount() int { return stAll() + 1 }
 
 var nameMaxValues = []int64{0, 30, 100, 63} // 0 = author says nothing
